@@ -380,7 +380,7 @@ def coq_cases(run):
 
 def correspond(ctx, corr, model_ok):
     from harness import battery
-    battery.run(corr, ['reconnect-producers-wire', 'endpoint-reads'])
+    battery.run(corr, ['reconnect-producers-wire', 'endpoint-reads', 'gated-responder-error'])
     n = ctx.scale(80, 900)
     descs = mk_descs(ctx.rng, n)
     cases = []
